@@ -116,9 +116,12 @@ def run_parse(kind, sql, d, level, max_errors, parsers):
         return ("TokenError", str(e), list(cap.records))
     except SqlglotError as e:
         return ("other-sqlglot", type(e).__name__, list(cap.records))
-    except RecursionError:
-        return ("internal", "RecursionError", list(cap.records))
-    except Exception as e:
+    except (RecursionError, Exception) as e:
+        # an internal exception is C05's subject, but the long-lived parser must come out of it with its own level
+        if kind != "fresh":
+            p = parsers.get((d, level, max_errors))
+            if p is not None and p.error_level != level:
+                return ("error-level-leaked", str(p.error_level), list(cap.records))
         return ("internal", type(e).__name__, list(cap.records))
 
 
@@ -129,19 +132,18 @@ def check_parse_levels(ctx, sql, d, max_errors, parsers, kind):
     case = {"sql": sql, "dialect": dn, "max_errors": max_errors, "parser": kind}
     res = {L: run_parse(kind, sql, d, L, max_errors, parsers) for L in (ErrorLevel.IGNORE, ErrorLevel.WARN, ErrorLevel.RAISE, ErrorLevel.IMMEDIATE)}
     ig, wa, ra, im = (res[L] for L in (ErrorLevel.IGNORE, ErrorLevel.WARN, ErrorLevel.RAISE, ErrorLevel.IMMEDIATE))
-    if any(r[0] == "internal" for r in res.values()):
-        ctx.count("skipped:internal(C05)")
-        return
-    ctx.count("evaluations")
-    ctx.count("parse_relations_evaluated")
-
     def viol(sig, **detail):
-        ctx.violation(f"parse:{sig}", {"sql": sql, "dialect": dn, "max_errors": max_errors, "parser": kind, **detail}, case)
+        ctx.violation(f"parse:{sig}", {"sql": sql[:300], "dialect": dn, "max_errors": max_errors, "parser": kind, **detail}, case)
 
     for name, r in (("IGNORE", ig), ("WARN", wa), ("RAISE", ra), ("IMMEDIATE", im)):
         if r[0] == "error-level-leaked":
             viol(f"error_level-not-restored:{name}", now=r[1])
             return
+    if any(r[0] == "internal" for r in res.values()):
+        ctx.count("skipped:internal(C05)")
+        return
+    ctx.count("evaluations")
+    ctx.count("parse_relations_evaluated")
     kinds = {r[0] for r in res.values()}
     if "TokenError" in kinds:
         if kinds != {"TokenError"} or len({r[1] for r in res.values()}) != 1:
@@ -285,6 +287,10 @@ def worker(ctx):
         s2, _ = stmts.gen_statement(rng, tables)
         inputs.append(s + "; " + mutate(rng, s2) + "; " + s2)
         inputs.append(mutate(rng, s) + ";\n" + mutate(rng, s2))
+        if i % 6 == 0:
+            # hostile nesting inside a speculative-parse region (comma join): whatever the parser raises, a long-lived
+            # parser must keep its own error level for the statements that follow
+            inputs.insert(rng.randrange(len(inputs)), "SELECT * FROM a, " + "(" * 400 + "SELECT 1")
         for text in inputs:
             for d in rng.sample(dialects, 3):
                 me = rng.choice([1, 3, 10])
